@@ -16,6 +16,8 @@ NA={
 CHECKS={
  'C05':("exploration","seeded search over interleavings of the real steel-rc count-word accesses (a scheduling decision before every access) for generated histories of create/clone/drop/move/unique-access/unwrap/exit/merge by 2-4 threads, checked against a handle-count model (destroyed exactly once, never while a handle exists, unique access only with count 1, reads intact); sampling, not proof",
         "sequentially consistent interleavings at access granularity; weak-memory outcomes and thread-local address reuse are not explored; freed boxes are quarantined so a use after destroy is observed","DESIGN.md §5 C05"),
+ 'C06':("exploration","seeded search over evaluation histories of 5-400 steps on one engine (define / define function reading and calling earlier globals / redefine / set! / multi-form programs / failing programs at compile time and at run time with definitions before and after the failing form / host register_value + update_value / collections) with the global-slot recycling threshold randomised (1..100) so recycling happens inside short histories, JIT on/off; after every step every live function is called and every live variable read and compared with a binding model",
+        "module requires are exercised by C14; references inside one evaluation follow the generator's ordering rule (DESIGN.md §5 C06)","DESIGN.md §5 C06"),
  'C04':("exploration","seeded search over collection schedules (a full collection forced at PRNG-chosen allocations, up to every allocation, plus explicit requests) for generated programs that park the only reference to boxes / mutable vectors / mutable struct fields / assigned captured variables in one of 23 root classes, churn the allocator and read back; oracle = generator-known contents + stale-slot monitor + free-slot accounting; JIT on/off and heap growth chunk are swarm dimensions",
         "collections are forced only where the runtime itself may collect; one script thread (threaded roots are exercised in the C15/C16 runs); the marker pool's internal races are not scheduled","DESIGN.md §5 C04"),
 }
